@@ -731,6 +731,79 @@ def r4_response(ctx):
 
 
 # ----------------------------------------------------------------------------- R5
+def _always_serialised(g):
+    """Keys that a (derived) Serialize impl writes with serialize_field on every path that reaches SerializeStruct::end --
+    a field under `skip_serializing_if` is written on some paths only.  None if the impl has no single `end` call."""
+    ends = [bb for bb, t in g.live_calls(r"SerializeStruct::end$")]
+    if len(ends) != 1:
+        return None
+    out = set()
+    by_key = {}
+    for bb, t in g.live_calls(r"SerializeStruct::serialize_field$"):
+        v = t["args"][1].get("val") or {}
+        if "str" in v:
+            by_key.setdefault(v["str"], []).append(bb)
+    for k, bbs in by_key.items():
+        if g.must_pass(bbs, exits=ends):
+            out.add(k)
+    return out
+
+
+def r13_owned_wire_types_match_their_schema(ctx):
+    """Added after adversary change C07-I (`skip_serializing_if = "Vec::is_empty"` on ResultsPage.items: an empty page was sent as `{}`
+    while the document, generated from the separate ResultsPageSchema, still requires `items`).  ResultsPage is serialised by one type
+    and documented by another; the two must agree."""
+    R = ctx.rule("C07.R13", "ResultsPage<T> is documented by ResultsPageSchema<T> and serialised by its own Serialize impl: the schema's properties are the "
+                 "serialised keys, with the types of the same-named fields, and every property the schema requires is written on every path", floor=5)
+    ds = ctx.ds
+    WIRE, SCHEMA = "pagination::ResultsPage", "pagination::ResultsPageSchema"
+    js = ctx.need_fn(ds, R, r"^<pagination::ResultsPage<ItemType> as schemars::JsonSchema>::json_schema$")
+    ret = js.slice({"l": 0, "p": []})
+    crate_calls = sorted(set(c for c, _, _ in ret.callees if not any(re.search(p, c) for p in PLUMBING)))
+    target = [t for c, bb, t in ret.callees if re.search(r"JsonSchema>?::json_schema$", c)]
+    deleg = len(target) == 1 and re.match(r"^pagination::ResultsPageSchema<", (target[0].get("gargs") or [""])[0] or "") is not None and len(crate_calls) == 1
+    ctx.check(R, "documented-by-the-schema-twin", deleg, "ResultsPage::json_schema returns %s" % ([(c, (t.get("gargs") or [""])[0]) for c, bb, t in ret.callees] or "no call"), js)
+    sj = ctx.need_fn(ds, R, r"impl schemars::JsonSchema for pagination::ResultsPageSchema<ItemType>>::json_schema$")
+    props, required = {}, set()
+    for bb, t in sj.live_calls(r"^schemars::_private::insert_object_property$"):
+        if len(t["args"]) != 5:
+            continue
+        key = lit_strs(sj.slice(t["args"][1]))
+        has_default, req = const_bool_operand(sj, t["args"][2]), const_bool_operand(sj, t["args"][3])
+        ty = (t.get("gargs") or [None])[0]
+        if len(key) != 1 or has_default is None or req is None or not ty:
+            ctx.lost(R, "a property of the derived ResultsPageSchema schema (key %s, has_default %s, required %s, type %s)" % (sorted(key), has_default, req, ty))
+            return
+        k = sorted(key)[0]
+        props[k] = ty
+        # schemars: a property is required unless it has a default or its type is an Option (`required` forces it)
+        if not has_default and (req or not ty.startswith("std::option::Option<")):
+            required.add(k)
+    wa, sa = ds.adts.get(WIRE), ds.adts.get(SCHEMA)
+    if not wa or not sa or not props:
+        ctx.lost(R, "the ADTs %s / %s or the properties of the derived schema" % (WIRE, SCHEMA))
+        return
+    wf = {x["name"]: x["ty"] for x in wa["variants"][0]["fields"]}
+    ctx.check(R, "schema-twin-has-the-wire-fields", props == wf, "documented properties %s; fields of ResultsPage %s" % (dict(sorted(props.items())), dict(sorted(wf.items()))), sj)
+    sers = ds.fns(r"Serialize for pagination::ResultsPage<ItemType>>::serialize$")
+    if len(sers) != 1:
+        ctx.lost(R, "the Serialize impl of ResultsPage (%d)" % len(sers))
+        return
+    keys = set()
+    for bb, t in sers[0].live_calls(r"SerializeStruct::(serialize_field|skip_field)$"):
+        v = t["args"][1].get("val") or {}
+        if "str" in v:
+            keys.add(v["str"])
+    ctx.check(R, "serialised-keys-are-the-documented-properties", keys == set(props), "keys written by Serialize: %s; documented properties: %s" % (sorted(keys), sorted(props)), sers[0])
+    always = _always_serialised(sers[0])
+    ctx.check(R, "required-properties-are-always-serialised", always is not None and required <= always and bool(required),
+              "the document requires %s; written on every path to SerializeStruct::end: %s" % (sorted(required), sorted(always) if always is not None else "no single `end` call"), sers[0])
+    for k in sorted(props):
+        ctx.check(R, "serialised-value-is-the-field:%s" % k, any(sers[0].slice(t["args"][2]).reads_field(k) for bb, t in sers[0].live_calls(r"SerializeStruct::serialize_field$")
+                                                                 if (t["args"][1].get("val") or {}).get("str") == k),
+                  "serialize_field(%r, ..) writes self.%s" % (k, k), sers[0])
+
+
 def r5_error_schema(ctx):
     R = ctx.rule("C07.R5", "the documented error schema is generated for the struct that HttpError::into_response serialises; its hand-written schema lists exactly the serialised "
                  "fields and requires exactly the non-Option ones; the error body is sent as application/json", floor=8)
@@ -774,6 +847,11 @@ def r5_error_schema(ctx):
             if "str" in v:
                 keys.add(v["str"])
     ctx.check(R, "wire-names-are-field-names", len(sers) == 1 and keys == set(fields), "keys written by Serialize: %s; struct fields: %s" % (sorted(keys), sorted(fields)), sers[0] if sers else None)
+    if len(sers) == 1:
+        always = _always_serialised(sers[0])
+        need = set(n for n, ty in fields.items() if not ty.startswith("std::option::Option<"))
+        ctx.check(R, "required-fields-are-always-serialised", always is not None and need <= always,
+                  "fields written on every path to SerializeStruct::end: %s; the schema requires %s" % (sorted(always) if always is not None else "no single `end` call", sorted(need)), sers[0])
     js = ctx.need_fn(ds, R, r"^<error::HttpErrorResponseBody as schemars::JsonSchema>::json_schema$")
     want_req = set(n for n, ty in fields.items() if not ty.startswith("std::option::Option<"))
     # the schema is read off the value json_schema returns, by interpretation: a struct literal over `[..].into_iter().collect()`, field
@@ -1224,7 +1302,7 @@ def r12_extension_mode_merge(ctx):
         ctx.lost(R, "an impl RequestExtractor for a tuple of two or more extractors")
 
 
-RULES = [("C07.R12", r12_extension_mode_merge), ("C07.R10", r10_documented_media_type_is_accepted), ("C07.R11", r11_schema_keywords_are_carried), ("C07.R9", r9_error_reference_names_the_stored_response), ("C07.R8", r8_headers_wrapper_keeps_the_response), ("C07.R7", r7_framework_errors_use_endpoint_error_type), ("C07.R1", r1_type_parameter), ("C07.R2", r2_location), ("C07.R3", r3_content_type), ("C07.R4", r4_response),
+RULES = [("C07.R13", r13_owned_wire_types_match_their_schema), ("C07.R12", r12_extension_mode_merge), ("C07.R10", r10_documented_media_type_is_accepted), ("C07.R11", r11_schema_keywords_are_carried), ("C07.R9", r9_error_reference_names_the_stored_response), ("C07.R8", r8_headers_wrapper_keeps_the_response), ("C07.R7", r7_framework_errors_use_endpoint_error_type), ("C07.R1", r1_type_parameter), ("C07.R2", r2_location), ("C07.R3", r3_content_type), ("C07.R4", r4_response),
          ("C07.R5", r5_error_schema), ("C07.R6", r6_required)]
 
 A = "dropshot/src/api_description.rs"
